@@ -607,8 +607,13 @@ def _dispatch_log_or_error(
     raw_extra_data: dict[str, object] = {}
     raw_extra = custom_metadata.get(LOG_EXTRA_KEY)
     if raw_extra is not None:
-        with contextlib.suppress(json.JSONDecodeError):
-            raw_extra_data = json.loads(raw_extra.decode())
+        # A peer may send anything here: undecodable bytes, malformed JSON, JSON
+        # that is not an object, or numerals Python refuses to convert.  None of
+        # these may fail the call; the message is delivered without extras.
+        with contextlib.suppress(ValueError, RecursionError):
+            parsed_extra = json.loads(raw_extra.decode())
+            if isinstance(parsed_extra, dict):
+                raw_extra_data = parsed_extra
 
     # Extract request_id from batch metadata
     request_id_bytes = custom_metadata.get(REQUEST_ID_KEY)
@@ -630,15 +635,22 @@ def _dispatch_log_or_error(
         raise RpcError(error_type, message_str, traceback_str, request_id=request_id)
 
     # Non-exception log message → invoke callback
-    # Coerce all extra values to str for Message(**extra)
-    extra: dict[str, str] = {k: str(v) for k, v in raw_extra_data.items()}
+    try:
+        level = Level(level_str)
+    except ValueError:
+        # Unknown level from a peer: consume and ignore the message rather than fail the call.
+        return True
+    # Coerce all extra values to str
+    extra: dict[str, object] = {k: str(v) for k, v in raw_extra_data.items()}
     # Extract server_id from top-level metadata into extra
     server_id_bytes = custom_metadata.get(SERVER_ID_KEY)
     if server_id_bytes is not None:
         extra["server_id"] = server_id_bytes.decode()
     if request_id:
         extra["request_id"] = request_id
-    msg = Message(Level(level_str), message_str, **extra)
+    # Assign extras directly: peer-chosen keys may collide with Message's own parameter names.
+    msg = Message(level, message_str)
+    msg.extra = extra or None
     if on_log is not None:
         on_log(msg)
     return True
